@@ -476,7 +476,7 @@ fn run(opts: &Opts, acc: &mut Acc) {
         }
     }
     acc.mark_exhaustive("grid", "one variable planted in each syntactic position listed by the property");
-    let n = opts.tier.pick(30_000, 600_000);
+    let n = opts.tier.pick(400_000, 4_000_000);
     random_genomes(acc, opts, "generated", n, 400, |gn, a| check_generated(gn, a));
 }
 
